@@ -119,7 +119,9 @@ impl Scenario for C17 {
         };
         let seed = b.ev_seed();
         // two thirds of the aws-lc episodes are scheduled at every FFI call of every operation as well
-        let fine = bk == Bk::V3Lc && b.rng.chance(2, 3);
+        // the other backends have scheduling points at the simulator's seams (every random draw, clock
+        // read and hook) in half of their episodes
+        let fine = if bk == Bk::V3Lc { b.rng.chance(2, 3) } else { b.rng.bool() };
         b.push(Step::Threads { spec: ThreadSpec { node: 0, local: fk.local, secret: fk.secret, public: fk.public, pke_public: fk.pke_public, pke_secret: fk.pke_secret, scripts, sched, seed, fine } });
         b.finish()
     }
